@@ -262,6 +262,69 @@ for _k in NESTS3:
     globals()["c06_nest_" + _k] = _mk_nest3(_k)
     CONDITIONS.append({"fn": "c06_nest_" + _k, "quick": 60, "thorough": 240})
 
+
+# ---- the asynchronous render path enforces the limit exactly like the synchronous one (every construct, every nest) ----
+import asyncio  # noqa: E402
+import itertools  # noqa: E402
+
+from vf.hx import cint, untraced  # noqa: E402
+
+ALLK = [("step", k) for k in STEP] + [("nest", k) for k in NESTS] + [("nest3", k) for k in NESTS3]
+A_LIMITS = (1, 2, 3, 4, 5, 6, 8, 9, 12, 20)
+
+
+def _outcome(run):
+    del SEEN[:]
+    try:
+        run()
+    except LoopIterationLimitError:
+        return ("limit", len(SEEN))
+    except LiquidError as e:
+        return ("liquid", type(e).__name__)
+    return ("ok", len(SEEN))
+
+
+def async_limit_sweep(ki, li):
+    fam, k = ALLK[ki]
+    N = A_LIMITS[li]
+    ENV.loop_iteration_limit = N
+    bad = []
+    if fam == "step":
+        t, cases = T_STEP[k], [{"xs": list(range(n))} for n in range(0, 8)]
+        # inside an enclosing loop of the caller as well
+        t2 = ENV.from_string("{% for o_ in os %}" + STEP[k][0] + "{% endfor %}")
+        cases2 = [{"xs": list(range(n)), "os": list(range(m))} for n in range(0, 6) for m in range(1, 5)]
+        plan = [(t, c) for c in cases] + [(t2, c) for c in cases2]
+    else:
+        t = (T_NEST if fam == "nest" else T_NEST3)[k]
+        dims = 2 if fam == "nest" else 3
+        plan = [(t, dict(zip("abc", [list(range(x)) for x in lens]))) for lens in itertools.product(range(0, 5), repeat=dims)]
+    for tt, data in plan:
+        a = _outcome(lambda: tt.render(**data))
+        b = _outcome(lambda: asyncio.run(tt.render_async(**data)))
+        if a != b:
+            bad.append({"data": {n: len(v) for n, v in data.items()}, "limit": N, "sync (outcome, probe runs)": a, "async": b})
+            if len(bad) > 2:
+                break
+    return bad
+
+
+def c06_async_agrees(ki: int, li: int) -> bool:
+    """
+    pre: 0 <= ki <= 43 and 0 <= li <= 9
+    post: _
+    """
+    if excluded("c06_async_agrees", locals()):
+        return True
+    ki, li = cint(ki, 0, len(ALLK) - 1), cint(li, 0, 9)
+    return finish(untraced(lambda: not async_limit_sweep(ki, li)))
+
+
+DETAIL = globals().get("DETAIL", {})
+DETAIL["c06_async_agrees"] = lambda ki, li: {"construct": ALLK[ki], "failing": async_limit_sweep(ki, li)}
+CONDITIONS.append({"fn": "c06_async_agrees", "quick": 150, "thorough": 300, "sel_only": True,
+                   "bounds": "%d constructs and nests x 10 limits (1..20) x lengths 0..7 (steps, also inside a caller loop of 1..4) / 0..4 per level (nests): render_async vs render" % len(ALLK)})
+
 ASSUMPTIONS = [
     "pre-state of a step = any context whose tracked product equals the true product P and P <= N (carry 1..6, 0..2 enclosing loops of length 1..6)",
     "the probe is a custom tag registered in the harness environment; it only reads context.loops and loop_iteration_carry",
@@ -271,6 +334,8 @@ OUTSIDE = ["lengths > 4 inside one step (lengths are symbolic but each length is
 
 
 def selftest():
+    if len(ALLK) != 44:
+        return ["number of constructs differs from the bound of c06_async_agrees: %d" % len(ALLK)]
     fails = []
     ENV.loop_iteration_limit = 100
     del SEEN[:]
